@@ -78,6 +78,8 @@ def run(ctx):
         lambda: sp.replay(ctx, bsync, "TestVerifC57SyncReplay", g4),
         lambda: sp.stress(ctx, bcache, "TestVerifC57CacheStress", rounds, "stress-cache"),
         lambda: sp.stress(ctx, bsync, "TestVerifC57SyncStress", rounds, "stress-sync"),
+        # rounds aimed at the Load / increment window of TryIncrement around the last Decrement
+        lambda: sp.stress(ctx, bsync, "TestVerifC57RefHunt", ctx.pick(1500, 20000), "stress-refhunt"),
     ], workers=2)
     # (e) all traces judged by the TLC monitor
     sp.validate(ctx, "OneShotTrace", parts)
